@@ -5,6 +5,7 @@ package main
 
 import (
 	"sort"
+	"strings"
 
 	restful "github.com/emicklei/go-restful/v3"
 )
@@ -112,6 +113,39 @@ func emitOptionsProbes(tw *traceWriter, tid int, t tableCase, routers []string, 
 				}
 				tw.emit(map[string]interface{}{"e": "probe", "tid": tid, "router": router, "path": path, "pass": pass,
 					"probes": probes, "nprobes": nprobes, "fprobes": fprobes, "allow405": allow405, "opt": opt})
+			}
+		}
+	}
+}
+
+// C14: the OPTIONS filter is asked about p and about p/ (same Allow header)
+func emitSlashOptionProbes(tw *traceWriter, tid int, t tableCase, routers []string) {
+	seen := map[string]bool{}
+	for _, router := range routers {
+		var cell *obsCell
+		filtered, ap := buildContainer(t, router, registrationOrder(t, nil, true), &cell)
+		if ap != "" {
+			continue
+		}
+		filtered.Filter(filtered.OPTIONSFilter)
+		for _, rq := range t.Reqs {
+			if rq.Opaque || strings.HasSuffix(rq.Path, "/") || seen[router+" "+rq.Path] {
+				continue
+			}
+			seen[router+" "+rq.Path] = true
+			ans := [][]string{}
+			for _, slash := range []bool{false, true} {
+				hr, err := reqSpec{M: "OPTIONS", Path: rq.Path}.httpRequest(slash)
+				if err != nil {
+					break
+				}
+				cell = &obsCell{}
+				rec := newRecorderObserve(filtered, hr, &cell)
+				ans = append(ans, splitList(rec.hdr.Get("Allow")), splitList(rec.hdr.Get("Access-Control-Allow-Methods")))
+			}
+			if len(ans) == 4 {
+				tw.emit(map[string]interface{}{"e": "sprobe", "tid": tid, "router": router, "path": rq.Path,
+					"allow": ans[0], "acam": ans[1], "sallow": ans[2], "sacam": ans[3]})
 			}
 		}
 	}
